@@ -346,7 +346,9 @@ def model_lines(cid, case, res):
         return []
     reqs = case['reqs']
     errs = ','.join(str(k) for k, r in enumerate(reqs) if r['err'])
-    lines = [f'case {cid} nconn={case["nconn"]} errs={errs}']
+    # srv = the task the responder has taken off `reqs` and is awaiting + the slots of `reqs` + the record whose
+    # `reqs.put` is blocked; pend = client backlog
+    lines = [f'case {cid} nconn={case["nconn"]} errs={errs} srv={(case.get("srv_backlog") or 256) + 2} pend=2048']
     cconn = {}          # client socket fileno -> connection index
     sconn = {}          # server socket fileno -> connection index
     rid_conn = {}       # request id -> connection it was last sent on
